@@ -42,14 +42,39 @@ RULE = ("tie: (n, ordered key list, s list, N) whose N' and flattened gate list 
 # real code
 # ------------------------------------------------------------------------------------------------
 
-def build(keys, svals, N):
-    """Returns the definition circuit of the REAL gate (declared num_qubits is C15's business)."""
+UNREACHED_JUSTIFIED = {}   # fnpoints.py: with entry_forms() every statement and branch outcome is reached in the quick tier
+
+FORMS = ("empty", "none-key", "label", "static", "static-qubits")
+
+
+def build(keys, svals, N, form="plain", wires=None):
+    """Returns the definition circuit of the REAL gate (declared num_qubits is C15's business).
+    form: 'plain' (opt_params None when N is None, else {'n_output_values': N}); 'empty' = {} and 'none-key' =
+    {'n_output_values': None} (both: default N'); 'label'; 'static' / 'static-qubits' = the static initialize() on a host
+    circuit (gate = the host's only instruction, gate._host = host)."""
+    from qiskit import QuantumCircuit
     from qclib.state_preparation.fnpoints import FnPointsInitialize
     params = {}
     for k, s in zip(keys, svals):
         params[k] = s
     opt = None if N is None else {"n_output_values": N}
-    gate = FnPointsInitialize(params, opt_params=opt)
+    if form == "empty":
+        opt = {}
+    elif form == "none-key":
+        opt = {"n_output_values": None}
+    if form == "label":
+        gate = FnPointsInitialize(params, label="f", opt_params=opt)
+    elif form in ("static", "static-qubits"):
+        w = 2 * len(keys[0]) + 1
+        host = QuantumCircuit(w if form == "static" else w + 1)
+        if form == "static":
+            FnPointsInitialize.initialize(host, params, opt_params=opt)
+        else:
+            FnPointsInitialize.initialize(host, params, qubits=list(wires), opt_params=opt)
+        gate = host.data[0].operation
+        gate._host = host
+    else:
+        gate = FnPointsInitialize(params, opt_params=opt)
     return gate, gate.definition
 
 
@@ -166,6 +191,61 @@ def oracle_case(ctx, keys, svals, N, tag, dense=True):
                sample={"n": n, "keys": list(keys)[:6], "s": [int(s) for s in svals][:6], "N": N, "m": m, "err": err})
 
 
+def entry_forms(ctx):
+    """The other entry paths of fnpoints.py: opt_params {} / {'n_output_values': None} (default N' = max s - 1), a label,
+    the static initialize() with qubits=None and with an explicit permuted wire list on a wider host circuit.  Tie (same
+    model op: the definition must not depend on the entry path) and dense oracle."""
+    from flatten import flatten, to_lines
+    from qiskit.quantum_info import Statevector
+    r = ctx.rng
+    for form in FORMS:
+        for n in (2, 3):
+            m = r.randint(2, 2 ** n)
+            keys = r.sample(all_keys(n), m)
+            if form in ("empty", "none-key"):
+                N = None
+                svals = [r.randrange(0, 6) for _ in keys]
+                svals[r.randrange(m)] = r.randint(3, 7)           # default N' = max s - 1 >= 2
+                nprime = max(svals) - 1
+            else:
+                N = r.choice([2, 3, 5, 8])
+                svals = [r.randrange(N) for _ in keys]
+                nprime = nprime_of(svals, N)
+            w = 2 * n + 1
+            wires = r.sample(range(w + 1), w) if form == "static-qubits" else list(range(w))
+            entry_case(ctx, keys, svals, N, form, wires)
+
+
+def entry_case(ctx, keys, svals, N, form, wires):
+    from flatten import flatten, to_lines
+    from qiskit.quantum_info import Statevector
+    n = len(keys[0])
+    w = 2 * n + 1
+    nprime = max(svals) - 1 if N is None else nprime_of(svals, N)
+    key = case_key(keys, svals, N, "form=" + form)
+    rep = {"call": "FnPointsInitialize", "keys": list(keys), "s": [int(x) for x in svals], "N": N, "form": form, "wires": wires}
+    try:
+        gate, circ = build(keys, svals, N, form, wires)
+    except Exception as e:
+        ctx.fail(key, f"construction raised {type(e).__name__}: {e}", rep)
+        return
+    ctx.count("branch:entry-form:" + form)
+    ctx.tie(op_of(keys, svals, N), [f"nprime {int(gate.n_output_values)} ;"] + to_lines(flatten(circ)))
+    host = getattr(gate, "_host", None)
+    full = host if host is not None else circ
+    got = Statevector(full).data
+    ideal = np.zeros(2 ** full.num_qubits, dtype=complex)
+    for i, a in target(keys, svals, nprime).items():
+        ideal[sum(((i >> b) & 1) << wires[b] for b in range(w))] = a
+    err = float(np.abs(got - ideal).max())
+    on = [full.find_bit(q).index for q in full.data[0].qubits] if host is not None else wires
+    if int(gate.n_output_values) != nprime or err > 1e-7 or on != wires:
+        ctx.fail(key, f"N'={gate.n_output_values} (expected {nprime}); wires {on} (asked {wires}); max |state - closed form| = {err:.3e}",
+                 dict(rep, observed_err=err))
+    else:
+        ctx.ok(key, nontrivial=True, sample={"n": n, "form": form, "N": N, "err": err})
+
+
 def gate_conventions(ctx):
     """K4 assumption: qiskit's matrices are the ones Sem/Denote.lean uses (little-endian: qubit 0 = first argument)."""
     from qiskit.circuit.library import CUGate, XGate, CXGate, CCXGate
@@ -278,6 +358,8 @@ def run(ctx, tie_nmax=None, or_nmax=None, sparse_nmax=None):
     ctx.notes.append("the oracle is built from .definition directly (x,g,c = 2n+1 qubits); the gate's declared num_qubits is "
                      "property C15's business")
 
+    entry_forms(ctx)
+
     # ---- oracle: dense, all subsets n <= 3, all m for n = 4, sampled m for n = 5
     or_nmax = or_nmax or 5
     for n in range(2, min(or_nmax, 3) + 1):
@@ -335,4 +417,7 @@ def search(ctx, hints):
 
 def replay(ctx, payload):
     r = payload["replay"]
+    if r.get("form"):
+        entry_case(ctx, r["keys"], r["s"], r["N"], r["form"], r["wires"])
+        return
     oracle_case(ctx, r["keys"], r["s"], r["N"], "replay", dense=r.get("dense", True))
